@@ -13,6 +13,7 @@ import (
 	"google.golang.org/protobuf/proto"
 	"google.golang.org/protobuf/types/known/wrapperspb"
 
+	"github.com/smart-core-os/sc-api/go/traits"
 	"github.com/smart-core-os/sc-api/go/types"
 	"github.com/smart-core-os/sc-golang/pkg/resource"
 )
@@ -35,16 +36,41 @@ func kindOf(s string) types.ChangeType {
 	panic("bad kind " + s)
 }
 
+// msgOf: one-character tokens are wrapperspb.StringValue; two-character tokens `ab` are two-field
+// messages (traits.Booking{Title: a, OwnerName: b}, `_` = field empty) so that a read mask can strip one.
 func msgOf(tok string) proto.Message {
 	if tok == "-" {
 		return nil
 	}
+	if len(tok) == 2 {
+		b := &traits.Booking{}
+		if tok[0] != '_' {
+			b.Title = tok[:1]
+		}
+		if tok[1] != '_' {
+			b.OwnerName = tok[1:]
+		}
+		return b
+	}
 	return wrapperspb.String(tok)
+}
+
+func fieldTok(s string) string {
+	if s == "" {
+		return "_"
+	}
+	return s
 }
 
 func tokOf(m proto.Message) string {
 	if m == nil {
 		return "-"
+	}
+	if b, ok := m.(*traits.Booking); ok {
+		if b == nil {
+			return "typed-nil"
+		}
+		return fieldTok(b.Title) + fieldTok(b.OwnerName)
 	}
 	sv, ok := m.(*wrapperspb.StringValue)
 	if !ok {
